@@ -93,6 +93,22 @@ Definition read_fields (oifs : option str) (line : str) (n : Z) (raw : bool) : r
   | Panic => Panic
   end.
 
+(* one Config used for several calls (the interpreter's read builtin uses the Runner's):
+   prepareConfig overwrites cfg.ifs at the start of every call (Fields.prepare_config) *)
+Definition read_fields_on (prev : str) (oifs : option str) (line : str) (n : Z) (raw : bool) : res (list str) :=
+  match rf_loop (prepare_config prev oifs) raw line r0 with
+  | Ok s => rf_finish s n
+  | Err c => Err c
+  | Panic => Panic
+  end.
+
+Fixpoint read_seq (prev : str) (calls : list (option str * str * Z * bool)) : list (res (list str)) :=
+  match calls with
+  | [] => []
+  | (oifs, line, n, raw) :: rest =>
+      read_fields_on prev oifs line n raw :: read_seq (prepare_config prev oifs) rest
+  end.
+
 (* --- Impl: readLine and the builtin ----------------------------------------------------- *)
 (* returns the line and whether the input ended before a newline (status 1) *)
 Fixpoint read_line (raw : bool) (inp : str) (line : str) (es : bool) : res (str * bool) :=
